@@ -41,6 +41,17 @@ func replSeedByName(name string) replSeed {
 }
 
 func scenRepl(seed replSeed, dev int, eagerFSM bool, updates int, crashes int, maxTerm uint64) *simScenario {
+	sc := scenReplBase(seed, dev, eagerFSM, updates, crashes, maxTerm)
+	if seed.name == "figure8" || seed.name == "longtail" {
+		// deep seeds: keep the menu to what matters there (loss / truncation of appends, elections, crash)
+		sc.Menu.Dups = false
+		sc.Menu.ClientNodes = []int{0}
+		sc.Menu.MaxTerm = maxTerm + 2
+	}
+	return sc
+}
+
+func scenReplBase(seed replSeed, dev int, eagerFSM bool, updates int, crashes int, maxTerm uint64) *simScenario {
 	return &simScenario{
 		Name:   "repl-" + seed.name,
 		Opt:    worldOpt{Nodes: 3, Voters: []uint64{1, 2, 3}, EagerFSM: eagerFSM, EagerLU: true, EagerConnect: true},
@@ -69,7 +80,7 @@ func replBudget(tier string) time.Duration {
 	if tier == "thorough" {
 		return 40 * time.Minute
 	}
-	return 200 * time.Second
+	return 300 * time.Second
 }
 
 func init() {
